@@ -133,6 +133,15 @@ Theorem C15_jitter_bounded :
 Proof. exact @gen_loop_jitter. Qed.
 Print Assumptions C15_jitter_bounded.
 
+(* inside the guard of the open finding the code fails closed: the call raises ValueError
+   before anything is yielded (it neither loops for ever nor returns a sequence that misses stop) *)
+Theorem C15_known_means_value_error :
+  forall (F : Type) (fo : fops F), order_laws fo ->
+  forall p fuel draws, spec_known fo p fuel = true -> (p_api p = ApiList \/ p_take p <> O) ->
+    run fo p fuel draws = mkObs [] (ERaise ValueError).
+Proof. exact @known_means_value_error. Qed.
+Print Assumptions C15_known_means_value_error.
+
 (* ---- validation ------------------------------------------------------------------------ *)
 Theorem C15_invalid_raises :
   forall (F : Type) (fo : fops F), order_laws fo -> grow_laws fo -> jitter_laws fo ->
